@@ -13,7 +13,7 @@ Extraction "model.ml"
   append_uniq insert_sorted read_client_list str_lt
   update_ttl adjusted_response ttl_ok min_serves_ok
   rstep rstate0 doh_resolve dns_resolve stored_of key_of_doh key_of_dns c06_ok serves_now
-  mstep m0 get_obj spec_best find_best no_unreach c16_ok c04_ok
+  mstep m0 get_obj spec_best find_best no_unreach c16_ok c04_ok c04_ok_multi
   activate_ops deactivate_ops apply_ops crash_activate crash_deactivate nameservers kept_lines
   apply_items save load parse_cmd
   short_id lan_client_info device_headers valid_header_value xxhash64 mac_string
